@@ -268,6 +268,13 @@ func (c *catalogue) harvest(d *insts.Disassembler, mnem string, words []uint32, 
 	if k == wk && idx == wi && op.RegCount != wantRC && len(c.changes) > 0 {
 		return nil // operand objects are being modified by later decodes (reported by the caller); this harvest is one more victim
 	}
+	if k == wk && idx != wi && (k == kVGPR || k == kSGPR) && op.Register != nil &&
+		op.Register.Name == fmt.Sprintf("%s%d", map[kind]string{kVGPR: "v", kSGPR: "s"}[k], wi) {
+		// the register table gives the register named by this operand code the cell of another register
+		return &cellAliasErr{Kind: k.String(), Name: op.Register.Name, Cell: idx, Intended: wi,
+			Msg: fmt.Sprintf("%s %x field %s: operand code of %s resolves to register cell %d (RegIndex) instead of %d: %s and %s%d are one cell",
+				mnem, words, field, op.Register.Name, idx, wi, op.Register.Name, op.Register.Name[:1], idx)}
+	}
 	if k != wk || idx != wi || op.RegCount != wantRC {
 		return fmt.Errorf("%s %x field %s: decoder gives %s rc=%d, intended kind=%s idx=%d rc=%d",
 			mnem, words, field, op.Register.Name, op.RegCount, wk, wi, wantRC)
@@ -423,3 +430,12 @@ func buildCatalogue() (*catalogue, error) {
 	}
 	return c, nil
 }
+
+// cellAliasErr: the decoder yields the register the encoding names, but that
+// register's cell index is the one of another register (two names, one cell).
+type cellAliasErr struct {
+	Kind, Name, Msg string
+	Cell, Intended  int
+}
+
+func (e *cellAliasErr) Error() string { return e.Msg }
